@@ -131,11 +131,12 @@ Qed.
 
 (* ---------- alloc ---------- *)
 Lemma alloc_naf hs he chunks bins live n ch' b' p :
-  raw_inv hs he chunks bins live -> 0 <= n <= two63 + 16 ->
+  raw_inv hs he chunks bins live ->
   ha_alloc_raw chunks bins n = (ch', b', p) -> naf_from false chunks -> naf_from false ch'.
 Proof.
-  intros Hinv Hn H Hnaf. unfold ha_alloc_raw in H.
+  intros Hinv H Hnaf. unfold ha_alloc_raw in H.
   destruct (n =? 0) eqn:E0; [inversion H; subst; exact Hnaf|].
+  destruct (size_too_large n); [inversion H; subst; exact Hnaf|].
   apply Z.eqb_neq in E0.
   set (size := aligned_size n) in *.
   set (r := match a_pass (Some (Z.to_nat BIN_MAX_LOOKUPS)) _ chunks bins _ size with
@@ -166,32 +167,36 @@ Qed.
 (* ---------- realloc ---------- *)
 Lemma shrink_naf pre x post bins size p ch' b' q :
   ha_shrink pre x post bins size p = (ch', b', q) -> c_used x = true ->
-  ((c_sz x >? size) && wants_split x size = true -> head_used post) ->
   naf_from false (pre ++ x :: post) -> naf_from false ch'.
 Proof.
-  unfold ha_shrink. intros H Hux Hh Hnaf.
-  destruct ((c_sz x >? size) && wants_split x size); inversion H; subst; clear H; [|exact Hnaf].
-  rewrite app_cons_mid in Hnaf.
-  apply (naf_surgery false pre [x] [_; _] post Hnaf).
-  - cbn. repeat split; discriminate.
-  - intros _. apply Hh. reflexivity.
+  unfold ha_shrink. intros H Hux Hnaf.
+  destruct ((c_sz x >? size) && wants_split x size); [|inversion H; subst; exact Hnaf].
+  destruct post as [|nx post'].
+  - inversion H; subst; clear H. rewrite app_cons_mid in Hnaf.
+    apply (naf_surgery false pre [x] [_; _] [] Hnaf); [cbn; repeat split; discriminate | intros _; exact I].
+  - destruct (c_used nx) eqn:Eunx; inversion H; subst; clear H.
+    + rewrite app_cons_mid in Hnaf.
+      apply (naf_surgery false pre [x] [_; _] (nx :: post') Hnaf); [cbn; repeat split; discriminate | intros _; exact Eunx].
+    + assert (Hh : head_used post').
+      { replace (pre ++ x :: nx :: post') with ((pre ++ [x]) ++ nx :: post') in Hnaf by (rewrite <- app_assoc; reflexivity).
+        apply (naf_around _ _ _ _ Hnaf Eunx). }
+      change (pre ++ x :: nx :: post') with (pre ++ [x; nx] ++ post') in Hnaf.
+      apply (naf_surgery false pre [x; nx] [_; _] post' Hnaf); [cbn; repeat split; discriminate | intros _; exact Hh].
 Qed.
 
 Lemma realloc_naf hs he chunks bins live p n ch' b' q :
-  raw_inv hs he chunks bins live -> p <> 0 -> 0 < n < two63 ->
-  realloc_splits_before_free chunks p n = false ->
+  raw_inv hs he chunks bins live -> p <> 0 -> n <> 0 ->
   ha_realloc_raw chunks bins p n = HOk (ch', b', q) ->
   naf_from false chunks -> naf_from false ch'.
 Proof.
-  intros Hinv Hp Hn Hdom H Hnaf. unfold ha_realloc_raw in H. unfold realloc_splits_before_free in Hdom.
+  intros Hinv Hp Hn H Hnaf. unfold ha_realloc_raw in H.
   apply Z.eqb_neq in Hp. rewrite Hp in H.
   assert (E0 : (n =? 0) = false) by (apply Z.eqb_neq; lia). rewrite E0 in H.
   destruct (ptr_misaligned p); [discriminate|].
   destruct (find_chunk _ chunks) as [[[pre x] post]|] eqn:Ef; [|discriminate].
   pose proof Ef as Ef'. apply find_chunk_spec in Ef'. destruct Ef' as [Ech _].
   destruct (c_used x) eqn:Eux; cbn [negb] in H; [|discriminate].
-  assert (H63 : two63 = 9223372036854775808) by reflexivity.
-  destruct (aligned_size_spec n ltac:(lia)) as (Hs1 & Hs2 & Hs3).
+  destruct (size_too_large n); [inversion H; subst; exact Hnaf|].
   set (size := aligned_size n) in *.
   (* the moving branch *)
   assert (Hmove : forall r,
@@ -204,7 +209,7 @@ Proof.
           end) = r -> r = HOk (ch', b', q) -> naf_from false ch').
   { intros r Hr1 Hr2. subst r.
     destruct (ha_alloc_raw chunks bins size) as [[ch b1] newp] eqn:Ea.
-    pose proof (alloc_naf hs he chunks bins live size ch b1 newp Hinv ltac:(lia) Ea Hnaf) as Hn1.
+    pose proof (alloc_naf hs he chunks bins live size ch b1 newp Hinv Ea Hnaf) as Hn1.
     destruct (newp =? 0); [inversion Hr2; subst; exact Hn1|].
     destruct (ha_dealloc_raw ch b1 p) as [[ch2 b2]| |] eqn:Ed; try discriminate.
     inversion Hr2; subst. eapply dealloc_naf; eassumption. }
@@ -212,41 +217,23 @@ Proof.
   - destruct post as [|nx post']; [eapply Hmove; [reflexivity | exact H]|].
     destruct (negb (c_used nx) && (w64 (w64 (c_sz x + c_sz nx) + NODE) >=? size)) eqn:Ec;
       [|eapply Hmove; [reflexivity | exact H]].
-    apply andb_prop in Ec. destruct Ec as [Ec1 _]. apply negb_true_iff in Ec1.
-    inversion H as [Hsh]. clear H.
-    subst chunks.
-    assert (Hh : head_used post').
-    { replace (pre ++ x :: nx :: post') with ((pre ++ [x]) ++ nx :: post') in Hnaf by (rewrite <- app_assoc; reflexivity).
-      apply (naf_around _ _ _ _ Hnaf Ec1). }
-    eapply (shrink_naf pre _ post' _ size p ch' b' q Hsh eq_refl (fun _ => Hh)).
+    inversion H as [Hsh]. clear H. subst chunks.
+    eapply (shrink_naf pre _ post' _ size p ch' b' q Hsh eq_refl).
     change (pre ++ x :: nx :: post') with (pre ++ [x; nx] ++ post') in Hnaf.
     apply (naf_surgery false pre [x; nx] [_] post' Hnaf).
     + cbn. split; [intros _; reflexivity | exact I].
     + cbn. discriminate.
-  - cbn zeta in Hdom. cbn [negb andb] in Hdom.
-    inversion H as [Hsh]. clear H. subst chunks.
-    eapply (shrink_naf pre x post bins size p ch' b' q Hsh Eux); [|exact Hnaf].
-    intros Hsp. rewrite Hsp in Hdom. cbn [andb] in Hdom.
-    destruct post as [|nx post']; [exact I|]. cbn. apply negb_false_iff in Hdom. exact Hdom.
+  - inversion H as [Hsh]. clear H. subst chunks.
+    eapply (shrink_naf pre x post bins size p ch' b' q Hsh Eux). exact Hnaf.
 Qed.
 
 (* ---------- steps and runs ---------- *)
-Definition step_dom (s : hastate) (live : list blk) (o : hop) : Prop :=
-  match o with
-  | HRealloc i n =>
-      match nth_error live i with
-      | Some b => realloc_splits_before_free (ha_chunks s) (b_addr b) n = false
-      | None => True
-      end
-  | _ => True
-  end.
-
 Lemma heap_init_shape c : hcfg_ok c ->
   ha_heap_init c = HOk (mkhastate true [mkchunk (heap_start c) (heap_end c - heap_start c - NODE) false]
                           (bins_add empty_bins (heap_end c - heap_start c - NODE) (heap_start c))).
 Proof.
   intros (HB & Hfit & Hmin). unfold ha_heap_init, heap_end. unfold heap_start.
-  pose proof NODE_eq as HN. pose proof ALIGN_eq as HA. rewrite HN, HA in *.
+  pose proof NODE_eq as HN. pose proof MIN_range as HMINR. pose proof ALIGN_eq as HA. pose proof MIN_range as HMr. rewrite HN, HA in *.
   assert (H64 : two64 = 18446744073709551616) by reflexivity.
   destruct (align_forward_spec (h_base c) 16 ltac:(exists 4; split; [lia | reflexivity]) ltac:(lia) ltac:(lia)) as [Hr Hm].
   set (hs := align_forward (h_base c) 16) in *.
@@ -261,31 +248,29 @@ Proof.
 Qed.
 
 Lemma hstep_naf c s live o s' live' :
-  hcfg_ok c -> hinv c s live -> hop_dom o -> step_dom s live o ->
+  hcfg_ok c -> hinv c s live -> hop_usize o ->
   hstep c (s, live) o = Some (s', live') ->
   naf_from false (ha_chunks s) -> naf_from false (ha_chunks s').
 Proof.
-  intros Hc Hi Hd Hsd Hst Hnaf. destruct o as [n | i | i n | ]; cbn [hstep] in Hst.
+  intros Hc Hi Hd Hst Hnaf. destruct o as [n | i | i n | ]; cbn [hstep] in Hst.
   - (* alloc *)
-    unfold ha_alloc, ha_ensure_init in Hst. cbn [hop_dom] in Hd.
-    assert (H63 : two63 = 9223372036854775808) by reflexivity.
+    unfold ha_alloc, ha_ensure_init in Hst.
     unfold hinv in Hi. destruct (ha_initialized s) eqn:Ein.
     + destruct (ha_alloc_raw (ha_chunks s) (ha_bins s) n) as [[ch b] p] eqn:Ea.
       inversion Hst; subst. cbn [ha_chunks].
-      eapply (alloc_naf _ _ _ _ _ n ch b p Hi ltac:(lia) Ea Hnaf).
+      eapply (alloc_naf _ _ _ _ _ n ch b p Hi Ea Hnaf).
     + rewrite (heap_init_shape c Hc) in Hst.
       destruct (heap_init_ok c Hc) as (ch0 & b0 & Hin0 & Hr0).
       rewrite (heap_init_shape c Hc) in Hin0. inversion Hin0; subst ch0 b0. clear Hin0.
       cbn [ha_chunks ha_bins] in Hst.
       destruct (ha_alloc_raw _ _ n) as [[ch b] p] eqn:Ea.
       inversion Hst; subst. cbn [ha_chunks].
-      eapply (alloc_naf _ _ _ _ _ n ch b p Hr0 ltac:(lia) Ea). cbn. split; [discriminate | exact I].
+      eapply (alloc_naf _ _ _ _ _ n ch b p Hr0 Ea). cbn. split; [discriminate | exact I].
   - destruct (nth_error live i) as [b|] eqn:Hn; [|inversion Hst; subst; exact Hnaf].
     unfold ha_dealloc in Hst.
     destruct (ha_dealloc_raw (ha_chunks s) (ha_bins s) (b_addr b)) as [[ch b1]| |] eqn:Ed; try discriminate.
     inversion Hst; subst. cbn [ha_chunks]. eapply dealloc_naf; eassumption.
   - destruct (nth_error live i) as [b|] eqn:Hn; [|inversion Hst; subst; exact Hnaf].
-    cbn [step_dom] in Hsd. rewrite Hn in Hsd. cbn [hop_dom] in Hd.
     unfold hinv in Hi. destruct (ha_initialized s) eqn:Ein; [|subst live; destruct i; discriminate].
     unfold ha_realloc, ha_ensure_init in Hst. rewrite Ein in Hst.
     destruct (live_chunk _ _ _ _ _ _ _ Hi Hn) as (pre & x & post & Ech & Hu & Ha & Hsz & Hnz & Hmis & Hw & Hfind).
@@ -298,34 +283,32 @@ Proof.
         - unfold ha_realloc_raw in Er. rewrite Hnz in Er. cbn [Z.eqb] in Er.
           destruct (ha_dealloc_raw (ha_chunks s) (ha_bins s) (b_addr b)) as [[ch2 b2]| |] eqn:Ed; try discriminate.
           inversion Er; subst. eapply dealloc_naf; eassumption.
-        - eapply (realloc_naf _ _ _ _ _ (b_addr b) n ch b1 q Hi); try eassumption; [apply Z.eqb_neq; exact Hnz | lia]. }
+        - eapply (realloc_naf _ _ _ _ _ (b_addr b) n ch b1 q Hi); try eassumption. apply Z.eqb_neq; exact Hnz. }
       destruct (n =? 0); [inversion Hst; subst; exact Hch|].
       destruct (q =? 0); inversion Hst; subst; exact Hch.
   - inversion Hst; subst. cbn. exact I.
 Qed.
 
 Lemma hrun_naf c ops : forall s live s' live',
-  hcfg_ok c -> hinv c s live -> Forall hop_dom ops -> hrun_dom c (s, live) ops ->
+  hcfg_ok c -> hinv c s live -> Forall hop_usize ops ->
   hrun c (s, live) ops = Some (s', live') ->
   naf_from false (ha_chunks s) -> hinv c s' live' /\ naf_from false (ha_chunks s').
 Proof.
-  induction ops as [|o r IH]; intros s live s' live' Hc Hi Hd Hdom Hr Hnaf; cbn [hrun] in Hr.
+  induction ops as [|o r IH]; intros s live s' live' Hc Hi Hd Hr Hnaf; cbn [hrun] in Hr.
   - inversion Hr; subst. auto.
-  - inversion Hd; subst. cbn [hrun_dom] in Hdom. destruct Hdom as [Hsd Hdom].
+  - inversion Hd; subst.
     destruct (hstep_ok c s live o Hc Hi H1) as (s1 & l1 & Hst & Hi1).
-    rewrite Hst in Hr, Hdom.
-    assert (Hn1 : naf_from false (ha_chunks s1)).
-    { apply (hstep_naf c s live o s1 l1 Hc Hi H1); [|exact Hst | exact Hnaf].
-      destruct o; cbn [step_dom]; try exact I. cbn [fst snd] in Hsd. exact Hsd. }
-    apply (IH s1 l1 s' live' Hc Hi1 H2 Hdom Hr Hn1).
+    rewrite Hst in Hr.
+    assert (Hn1 : naf_from false (ha_chunks s1)) by (apply (hstep_naf c s live o s1 l1 Hc Hi H1 Hst Hnaf)).
+    apply (IH s1 l1 s' live' Hc Hi1 H2 Hr Hn1).
 Qed.
 
-Theorem heap_no_adjacent_free_partial_proof : forall c ops s live,
-  hcfg_ok c -> Forall hop_dom ops -> hrun_dom c (ha_init_state, []) ops ->
+Theorem heap_no_adjacent_free_proof : forall c ops s live,
+  hcfg_ok c -> Forall hop_usize ops ->
   hrun c (ha_init_state, []) ops = Some (s, live) -> no_adjacent_free (ha_chunks s).
 Proof.
-  intros c ops s live Hc Hd Hdom Hr. apply naf_iff.
-  eapply (hrun_naf c ops ha_init_state [] s live Hc (hinv_init c) Hd Hdom Hr). cbn. exact I.
+  intros c ops s live Hc Hd Hr. apply naf_iff.
+  eapply (hrun_naf c ops ha_init_state [] s live Hc (hinv_init c) Hd Hr). cbn. exact I.
 Qed.
 
 (* ---------- everything released: the heap is exactly a freshly initialised heap ---------- *)
@@ -355,12 +338,12 @@ Lemma released_is_fresh c s :
   ha_chunks s = [mkchunk (heap_start c) (heap_end c - heap_start c - NODE) false] /\
   ha_bins s = bins_add empty_bins (heap_end c - heap_start c - NODE) (heap_start c).
 Proof.
-  intros Hc [Hpos Htop Ht Hal Hb (HF & Hnd & Hcomp)] Hnaf. pose proof NODE_eq as HN.
+  intros Hc [Hpos Htop Ht Hal Hb (HF & Hnd & Hcomp)] Hnaf. pose proof NODE_eq as HN. pose proof MIN_range as HMINR.
   assert (Hfree : Forall (fun x => c_used x = false) (ha_chunks s)).
   { rewrite Forall_forall. intros x Hx. destruct (c_used x) eqn:E; [|reflexivity]. destruct (Hcomp x Hx E). }
   pose proof (all_free_single _ _ Hnaf Hfree) as Hlen.
   assert (Hlt : heap_start c < heap_end c).
-  { destruct Hc as (HB & Hfit & Hmin). unfold heap_end in *. unfold heap_start in *. rewrite HN, ALIGN_eq in *.
+  { destruct Hc as (HB & Hfit & Hmin). pose proof MIN_range as HMr. unfold heap_end in *. unfold heap_start in *. rewrite HN, ALIGN_eq in *.
     assert (H64 : two64 = 18446744073709551616) by reflexivity.
     destruct (align_forward_spec (h_base c) 16 ltac:(exists 4; split; [lia | reflexivity]) ltac:(lia) ltac:(lia)) as [Hr _]. lia. }
   destruct (ha_chunks s) as [|x [|y r]] eqn:Ech; cbn in Hlen; try lia.
@@ -392,13 +375,13 @@ Proof.
     specialize (Hbin (Z.of_nat k) ltac:(lia)). unfold bin_nth in Hbin. rewrite Nat2Z.id in Hbin. exact Hbin.
 Qed.
 
-Theorem heap_release_all_restores_partial_proof : forall c ops s n,
-  hcfg_ok c -> Forall hop_dom ops -> hrun_dom c (ha_init_state, []) ops ->
+Theorem heap_release_all_restores_proof : forall c ops s n,
+  hcfg_ok c -> Forall hop_usize ops ->
   hrun c (ha_init_state, []) ops = Some (s, []) ->
   ha_alloc c s n = ha_alloc c ha_init_state n.
 Proof.
-  intros c ops s n Hc Hd Hdom Hr.
-  destruct (hrun_naf c ops ha_init_state [] s [] Hc (hinv_init c) Hd Hdom Hr ltac:(cbn; exact I)) as [Hi Hnaf].
+  intros c ops s n Hc Hd Hr.
+  destruct (hrun_naf c ops ha_init_state [] s [] Hc (hinv_init c) Hd Hr ltac:(cbn; exact I)) as [Hi Hnaf].
   unfold ha_alloc, ha_ensure_init. cbn [ha_initialized ha_init_state].
   unfold hinv in Hi. destruct (ha_initialized s) eqn:Ein; [|reflexivity].
   destruct (released_is_fresh c s Hc Hi Hnaf) as [Ech Eb].
